@@ -5,6 +5,9 @@ CONSTANTS
   Lens = @LENS@
   NW = @NW@
   MaxRec = @MAXREC@
+  MaxFail = @MAXFAIL@
+  FmtMax = @FMTMAX@
+  WLimit = @WLIMIT@
   WMode = "@WMODE@"
   RMode = "@RMODE@"
 INVARIANTS @INVS@
